@@ -238,7 +238,7 @@ def run(ck):
     ck.canary("S->C: expected internal representation altered", compare_dns(c, byvec[c["vec"]][1]) is not None)
     c = first_of(lambda v: v["cl"] == "cfg:one:ok" and v["servers"][0]["ip"] == "-1"); c["list"][0]["host"] = c["list"][0]["host"].replace("255.255.255.255", "255.255.255.254")
     ck.canary("S->C: expected host altered", compare_cfg(c, cbyvec[c["vec"]][0]) is not None)
-    c = first_of(lambda v: v["cl"] == "cfg:list" and len(v["list"]) >= 2); c["list"] = c["list"][::-1]
+    c = first_of(lambda v: v["cl"] == "cfg:list" and v["det"] and len(v["list"]) >= 2 and v["list"][0] != v["list"][-1]); c["list"] = c["list"][::-1]
     ck.canary("S->C: expected server order reversed", compare_cfg(c, cbyvec[c["vec"]][0]) is not None)
     c = first_of(lambda v: v["cl"] == "cfg:one:skip"); c["err"] = False; c["list"] = [{"host": "1.2.3.4:5", "key": "x"}]
     ck.canary("S->C: unsupported key type expected to be listed", compare_cfg(c, cbyvec[c["vec"]][0]) is not None)
